@@ -4,6 +4,7 @@ import os
 import re
 
 import common
+import kprop
 import vprop
 from rustcut import Source
 
@@ -56,6 +57,12 @@ def run(tier):
     except Exception as e:
         pre_und.append('runner extraction: %s' % e)
     units = [dict(vspec=os.path.join(common.VERIF, 'contracts', 'c09_waittable.vspec'))]
+    # clause (a): instruction selection of the atomic operations (Kani rows on the baseline macro assembler).
+    # quick tier: the 64-bit rows and both compare-exchange rows (20-90 s each); the 8/32-bit rows (4-5 min each) are thorough-tier
+    quick_rows = {'store_int64_synchronized', 'exchange_int64_synchronized', 'compare_exchange_int32_synchronized',
+                  'compare_exchange_int64_synchronized', 'fetch_add_int64_synchronized'}
+    kv, ku, kcov, kobl = kprop.kani_rows_for_verus_property('c09a', only=(quick_rows if tier == 'quick' else None), jobs=(5 if tier == 'quick' else 3))
+    pre_und += ku
     assumptions = [
         'keys are object addresses > 1 (0 and 1 are the EMPTY / DELETED markers) - precondition of insert',
         'ObjectHashMap::remove is never called on a table that was never filled (capacity 0, same epoch): caller-history precondition '
@@ -65,7 +72,9 @@ def run(tier):
         'usize is 64 bits; an allocation of n table entries that returns has n <= 2^59',
         'assumed std contracts (trusted_base): vec![d; n].into_boxed_slice(), mem::replace, MaybeUninit placeholders (SOME value), Default::default() of the entry (key = null)',
         'visit_roots (raw pointers + FnMut) is not under contract; the replay runner drives it to emulate a moving collection',
-        'mutual exclusion, lost wake-ups, joins, thread queues (DoraThreadPtr lists), and atomics of the generated code are NOT decided here: interleavings are outside this technique',
+        'clause (a): that a LOCK-prefixed CMPXCHG/XADD and an XCHG with a memory operand are indivisible is the processor\'s guarantee; the rows decide which instruction is selected '
+        '(contracts/c09a_rows.rs, child module of masm in a scratch copy of dora-cannon-compiler; MacroAssembler is built field by field because ::new() executes cpuid)',
+        'mutual exclusion, lost wake-ups, joins and thread queues (DoraThreadPtr lists) are NOT decided here: interleavings are outside this technique',
     ]
     samples = [
         dict(invariant='wf', statement='capacity = |data| is 0 or a power of two >= 8; entries / deleted count the live / tombstone slots; entries + deleted <= 3/4 capacity '
@@ -73,15 +82,20 @@ def run(tier):
         dict(function='ObjectHashMap::insert', contract='requires wf && key > 1; ensures wf, domain\' = domain + {key}, value of key = value, all other keys keep their values; terminates (mutual recursion with rehash bounded)'),
         dict(function='ObjectHashMap::get', contract='requires wf; ensures wf, same abstract map, result = lookup(key); rehashes first if the collector moved objects'),
         dict(function='ObjectHashMap::remove', contract='ensures domain\' = domain - {key}, result = old value, other keys untouched'),
+        dict(row='compare_exchange_int64_synchronized', contract='for all 16^3 register choices: returned ==> expected is RAX and the emitted bytes are exactly `lock cmpxchg [address], new` (64-bit)'),
+        dict(row='exchange_int64_synchronized', contract='exactly `xchg [address], new` (implicitly locked) followed by `mov old, new`; no other memory access'),
         dict(function='ObjectHashMap::rehash', contract='requires only the GC-stable part of wf; ensures wf, same abstract map, no tombstones, epoch current'),
     ]
     not_decided = ['mutual exclusion / no lost wake-up / join semantics in every interleaving', 'WaitLists::{block, wakeup, wakeup_all} and the per-key thread queues',
-                   'atomic RMW instruction selection of the baseline generator (planned Kani unit)', 'the optimizing generator, arm64']
-    return vprop.run_verus_property(PROP, tier, units, runner=runner, assumptions=assumptions, samples=samples, not_decided=not_decided, pre_undecided=pre_und)
+                   'atomic operations of the optimizing generator (pkgs/boots, Dora) and of the arm64 macro assembler']
+    return vprop.run_verus_property(PROP, tier, units, runner=runner, assumptions=assumptions, samples=samples, not_decided=not_decided, pre_undecided=pre_und,
+                                    pre_violations=kv, extra_cov=kcov, extra_obligations=kobl)
 
 
 def replay(rp):
     fi = rp.get('failing_input')
+    if fi and fi.get('kind') == 'kani-row':
+        return kprop.replay_row(rp)
     if not fi:
         print('replay file carries no concrete input (no-failing-input-found); failed obligation: %s' % rp.get('obligation'))
         print(rp.get('verus_output', ''))
